@@ -79,7 +79,6 @@ pub(super) mod udp {
     use std::net::SocketAddrV4;
 
     use anyhow::anyhow;
-    use anyhow::bail;
     use octo_squirrel::codec::DatagramPacket;
     use octo_squirrel::codec::aead::CipherKind;
     use octo_squirrel::codec::shadowsocks::udp::AEADCipherCodec;
@@ -188,7 +187,8 @@ pub(super) mod udp {
                 match self.codec.decode(src)? {
                     Some((content, addr, session)) => {
                         if !self.filter.validate_packet_id(session.packet_id, u64::MAX) {
-                            bail!("[udp] packet_id out of window; session={}", session)
+                            log::warn!("[udp] drop packet, packet_id out of window; session={}", session);
+                            return Ok(None);
                         }
                         self.session.server_session_id = session.server_session_id;
                         Ok(Some((content, addr)))
